@@ -170,7 +170,8 @@ func checkLine(r *mc.Run, part, waLine, goLine, class string, st *lineStats) {
 		return
 	}
 	if werr2 != nil {
-		r.Report(part+"|printed-form-rejected|"+class, fmt.Sprintf("%q prints as %q which Parse rejects: %v", waLine, s, werr2), map[string]any{"line": waLine, "printed": s})
+		// class = the parser's complaint about the printed form (independent of the rest of the line)
+		r.Report(part+"|printed-form-rejected|"+werr2.Error(), fmt.Sprintf("%q prints as %q which Parse rejects: %v", waLine, s, werr2), map[string]any{"line": waLine, "printed": s})
 		return
 	}
 	if t2 := tableWa(we2); t2 != tw {
@@ -441,6 +442,9 @@ func handleJob(raw json.RawMessage) interface{} {
 	if err := json.Unmarshal(raw, &j); err != nil {
 		return JobResult{Panic: "job decode: " + err.Error()}
 	}
+	if len(j.Constraints) == 0 {
+		return JobResult{} // placeholder job handed out after the deadline
+	}
 	m := fstest.MapFS{}
 	if j.Cfg.Manifest != "" {
 		// JSON manifest: the TOML decoder matches keys against field names / toml tags and
@@ -589,9 +593,6 @@ func inclusion(r *mc.Run) {
 
 	r.Bound("inclusion_constraint_x_configuration_x_layout", pairs)
 
-	// each worker is sequential (the loader is not reentrant): keep its GC from fanning out
-	pool := mc.NewPool(mc.NWorkers(), []string{"GOMAXPROCS=2"})
-	defer pool.Close()
 	var mu sync.Mutex
 	var failed []int
 	included, excluded := int64(0), int64(0)
@@ -725,7 +726,17 @@ func inclusion(r *mc.Run) {
 		}
 	}
 	// Horizon: a packed load costs ~0.1 s; 10 min classifies a hang only.
-	err := pool.Run(len(jobs), func(i int) interface{} { return jobs[i].job }, 10*time.Minute, func(res mc.Result) {
+	// each worker is sequential (the loader is not reentrant): GOMAXPROCS=2 keeps its GC from fanning out
+	err := runBatched(len(jobs), 40*mc.NWorkers(), []string{"GOMAXPROCS=2"}, func(i int) interface{} {
+		if r.Expired() {
+			r.Cap("deadline in inclusion sweep")
+			return Job{} // empty job: nothing is loaded
+		}
+		return jobs[i].job
+	}, 10*time.Minute, func(res mc.Result) {
+		if r.Expired() {
+			return
+		}
 		handle(jobs[res.Index], res, false)
 	})
 	if err != nil {
@@ -771,6 +782,25 @@ func inclusion(r *mc.Run) {
 	}
 }
 
+// runBatched is Pool.Run with the worker processes replaced after every batch: a long-lived
+// process keeps ~2 MB per loaded program reachable (loader/compiler globals), so workers are
+// recycled to keep memory modest.
+func runBatched(njobs, batch int, env []string, job func(i int) interface{}, horizon time.Duration, handle func(mc.Result)) error {
+	for lo := 0; lo < njobs; lo += batch {
+		hi := min(lo+batch, njobs)
+		pool := mc.NewPool(mc.NWorkers(), env)
+		err := pool.Run(hi-lo, func(i int) interface{} { return job(lo + i) }, horizon, func(res mc.Result) {
+			res.Index += lo
+			handle(res)
+		})
+		pool.Close()
+		if err != nil {
+			return err
+		}
+	}
+	return nil
+}
+
 func lastLine(s string) string {
 	s = strings.TrimSpace(s)
 	if i := strings.LastIndexByte(s, '\n'); i >= 0 {
@@ -786,7 +816,7 @@ func main() {
 	}
 	r := mc.Start("C24")
 	r.Rule("every token sequence up to the length bound (length ascending, then lexicographic) behind '#wa:build ', every segment sequence of the malformed-prefix alphabet, and every constraint tree × configuration through the real loader; distinct = distinct (truth table, printed form) of accepted lines, distinct rejection messages, distinct (expected, observed) inclusion outcomes")
-	maxTok := mc.Pick(r, 6, 7)
+	maxTok := mc.Pick(r, 6, 8)
 	maxSeg := mc.Pick(r, 5, 6)
 	r.Bound("max_tokens", maxTok)
 	r.Bound("token_alphabet", tokens)
